@@ -171,7 +171,13 @@ Explains(r) ==
                        /\ (r.call # "vg_inplace" => "vg_inplace" \in DOMAIN refs) /\ VOutOk(r)
     [] r.e = "ROut" -> r.call \in Calls /\ zin # None /\ zin.e = "RIn" /\ (r.call # "zoom3" => "zoom3" \in DOMAIN refs) /\ ROutOk(r)
     [] OTHER -> FALSE
-Classify(r) == "new"
+\* C15-vgidentity: zoom_viewgram(out, in, x, y) with identical sampling and range and no offset returns without copying
+\* in to out ("zoom in_viewgram, replacing out_viewgram with the new data"): out keeps what it held (the driver's fill, 7)
+Classify(r) ==
+  IF r.e = "VOut" /\ zin # None /\ zin.e = "VIn" /\ r.call = "vg_into" /\ ~r.err
+     /\ zin.P = zin.Q /\ VOff(zin) = 0 /\ zin.olo = zin.lo /\ zin.ohi = zin.hi
+     /\ r.lo = zin.lo /\ r.hi = zin.hi /\ \A i \in 1..Len(r.vals) : r.vals[i] = 7 * FxK
+  THEN "C15-vgidentity" ELSE "new"
 
 Init == l = 1 /\ zin = None /\ GI = <<>> /\ GOz = <<>> /\ exp = <<>> /\ den = 1 /\ refs = <<>> /\ bad = <<>>
 Next == /\ l <= Len(TraceLog)
